@@ -507,6 +507,37 @@ fn blocking(rep: &mut Report) {
             }
         }
     }
+    // (a2) the same from spawn_blocking threads (which have a runtime handle): one sender's blocking_tells to a
+    //      small, slow mailbox are handled in the order in which they were issued
+    {
+        note("blocking (a2): one spawn_blocking sender, 12 blocking_tell(.., None) in sequence, capacity 1, 15 ms handler".into());
+        let log = Arc::new(Mutex::new(vec![]));
+        let (r, jh) = rt.block_on(async { spawn_with_mailbox_capacity::<B>((log.clone(), 15), 1) });
+        let r2 = r.clone();
+        let sent = rt.block_on(async move {
+            tokio::task::spawn_blocking(move || {
+                let mut ok = 0;
+                for k in 0..12u32 {
+                    if r2.blocking_tell(W(300 + k), None).is_ok() {
+                        ok += 1;
+                    }
+                }
+                ok
+            })
+            .await
+            .unwrap_or(0)
+        });
+        std::thread::sleep(Duration::from_millis(400));
+        rt.block_on(async {
+            let _ = r.stop().await;
+            let _ = tokio::time::timeout(Duration::from_secs(10), jh).await;
+        });
+        calls += 12;
+        let seq: Vec<u32> = log.lock().unwrap().iter().copied().filter(|x| (300..320).contains(x)).collect();
+        if seq.windows(2).any(|w| w[0] >= w[1]) || seq.len() != sent {
+            rep.v("C17 C02 C01", format!("a spawn_blocking sender issued blocking_tell 300..311 in sequence ({sent} returned Ok); handled: {seq:?} (must be the same messages in the same order)"));
+        }
+    }
     // (b) deadlines: slow actor / full mailbox / stopped actor
     {
         let log = Arc::new(Mutex::new(vec![]));
@@ -851,6 +882,46 @@ fn ids(rep: &mut Report) {
     }
     rep.s("ids", format!("spawned={n} distinct={}", v.len()));
     drop(rt);
+    // ids are never handed out twice, whatever becomes of the actors: start-up failures and panics included
+    let rt1 = tokio::runtime::Builder::new_current_thread().enable_time().build().unwrap();
+    rt1.block_on(async {
+        let mut seen: Vec<(u64, &str)> = vec![];
+        let mut keep: Vec<Box<dyn std::any::Any>> = vec![];
+        for round in 0..30u32 {
+            note(format!("ids: spawn / failing on_start / panicking on_start sequence, round {round}"));
+            let (ok, _j0) = spawn::<J>(());
+            seen.push((ok.identity().id, "started"));
+            let (bad, j1) = spawn::<F>(round % 2 == 0);
+            seen.push((bad.identity().id, "failed in on_start"));
+            let _ = j1.await; // the failed actor is over; its handle (and identity) is still held
+            let (next, _j2) = spawn::<J>(());
+            seen.push((next.identity().id, "spawned after the failure"));
+            keep.push(Box::new(ok));
+            keep.push(Box::new(bad));
+            keep.push(Box::new(next));
+        }
+        let mut ids: Vec<u64> = seen.iter().map(|x| x.0).collect();
+        ids.sort();
+        if let Some(w) = ids.windows(2).find(|w| w[0] == w[1]) {
+            let who: Vec<&str> = seen.iter().filter(|x| x.0 == w[0]).map(|x| x.1).collect();
+            rep.v("C11 C12", format!("two actors of one process share id {}: {who:?} (handles of both are still held)", w[0]));
+        }
+    });
+}
+
+/// fails in on_start: by an error (true) or by a panic (false)
+struct F;
+impl Actor for F {
+    type Args = bool;
+    type Error = String;
+    async fn on_start(by_error: bool, _: &ActorRef<Self>) -> Result<Self, String> {
+        tokio::task::yield_now().await;
+        if by_error {
+            Err("scripted start-up failure".into())
+        } else {
+            panic!("scripted start-up panic")
+        }
+    }
 }
 
 fn jstr(s: &str) -> String {
